@@ -4,7 +4,8 @@
     Each theorem is closed by [exact] of a lemma proved in ProofsFrame*.v / ProofsPacket*.v and
     followed by [Print Assumptions]. *)
 From Coq Require Import List ZArith NArith Bool Arith.
-From Kardia Require Import Generated.C20Facts C20.Model C20.Spec C20.ProofsFrame C20.ProofsPacket.
+From Kardia Require Import Generated.C20Facts C20.Model C20.Spec C20.ProofsFrame C20.ProofsPacket
+  C20.ProofsFault C20.ProofsUpgrade.
 Import ListNotations.
 
 (* ------------------------------------------------------------------ frame layer *)
@@ -132,6 +133,120 @@ Theorem C20_frame_size :
 Proof. exact write_many_out_len. Qed.
 Print Assumptions C20_frame_size.
 
+(* ------------------------------------------------------------------ frame layer, write errors *)
+
+(** ONE Write whose conn.Write fails at its frame j: the caller gets the error and the byte count
+    of the chunks before that frame; j+1 frames were handed to the conn, the i-th of them sealed
+    under counter c0+i; the send nonce stands at c0+j+1 — the failing frame has consumed its
+    nonce whatever became of its bytes, so the next Write cannot reuse it. *)
+Theorem C20_write_error_nonce_discipline :
+  forall (key : Type) (seal : key -> nonce -> bytes -> bytes) (pad : nat -> bytes)
+         (a : conn key) (d : bytes) (j : nat) (c0 : N),
+    send_nonce a = nonce_of c0 ->
+    j < length (chunks d) ->
+    (c0 + N.of_nat (S j) <= max_u64)%N ->
+    exists a' out,
+      write_f key seal pad a d (Some j) = (a', out, WFErr (length (concat (firstn j (chunks d))))) /\
+      send_nonce a' = nonce_of (c0 + N.of_nat (S j)) /\
+      length out = S j /\
+      (forall i, i <= j ->
+         nth_error out i =
+         option_map (fun ch => seal (send_key a) (nonce_of (c0 + N.of_nat i)) (mk_frame pad ch))
+                    (nth_error (chunks d) i)).
+Proof. exact write_fault_discipline. Qed.
+Print Assumptions C20_write_error_nonce_discipline.
+
+(** Any number of Write calls, any of them failing at any frame, the caller writing on: the i-th
+    frame ever handed to the conn is sealed under counter c0+i and the send nonce ends at
+    c0 + (number of frames sealed) ... *)
+Theorem C20_write_error_frame_nonce :
+  forall (key : Type) (seal : key -> nonce -> bytes -> bytes) (pad : nat -> bytes)
+         (a : conn key) (ws : list (bytes * option nat)) (a' : conn key) (out : list bytes) (c0 : N),
+    send_nonce a = nonce_of c0 ->
+    (c0 + N.of_nat (length (chunks_of_f ws)) <= max_u64)%N ->
+    write_many_f key seal pad a ws = (a', out) ->
+    send_nonce a' = nonce_of (c0 + N.of_nat (length out)) /\
+    forall i, nth_error out i =
+              option_map (seal (send_key a) (nonce_of (c0 + N.of_nat i)))
+                         (nth_error (frames_of_f pad ws) i).
+Proof. exact fault_frame_nonce. Qed.
+Print Assumptions C20_write_error_frame_nonce.
+
+(** ... and no two of these frames share a nonce. *)
+Theorem C20_write_error_nonce_unique :
+  forall (key : Type) (seal : key -> nonce -> bytes -> bytes) (pad : nat -> bytes)
+         (a : conn key) (ws : list (bytes * option nat)) (a' : conn key) (out : list bytes) (c0 : N),
+    send_nonce a = nonce_of c0 ->
+    (c0 + N.of_nat (length (chunks_of_f ws)) <= max_u64)%N ->
+    write_many_f key seal pad a ws = (a', out) ->
+    forall i j, i < j -> j < length out ->
+      nonce_of (c0 + N.of_nat i) <> nonce_of (c0 + N.of_nat j).
+Proof. exact fault_nonce_unique. Qed.
+Print Assumptions C20_write_error_nonce_unique.
+
+(** The tamper theorems hold for such a writer with "the frames sealed" (failed ones included) in
+    place of "the frames written": whatever reaches the reader, only bytes of sealed chunks are
+    delivered, once and in order — or the wire contains a forgery; *)
+Theorem C20_write_error_tamper_never_delivers_altered_bytes :
+  forall (key : Type) (seal : key -> nonce -> bytes -> bytes)
+         (open_ : key -> nonce -> bytes -> option bytes) (pad : nat -> bytes),
+    aead_ok key seal open_ ->
+    forall (a b : conn key) (c0 : N) (ws : list (bytes * option nat)) (a' : conn key)
+           (out : list bytes) (w : bytes) (caps : list nat) (b' : conn key) (w' : bytes)
+           (rs : list rres),
+      paired key a b c0 ->
+      (c0 + N.of_nat (length (chunks_of_f ws)) <= max_u64)%N ->
+      write_many_f key seal pad a ws = (a', out) ->
+      read_many key open_ b w caps = (b', w', rs) ->
+      (exists rest, concat (chunks_of_f ws) = delivered rs ++ rest) \/
+      forgery key seal (send_key a) c0 (frames_of_f pad ws) w.
+Proof. exact fault_tamper_safety. Qed.
+Print Assumptions C20_write_error_tamper_never_delivers_altered_bytes.
+
+(** a wire that agrees with the sealed frames on the first j and then differs (the frame whose
+    write failed was lost or cut, or it arrived and a later one was dropped, swapped, replayed)
+    delivers exactly the chunks of those j frames and the read that reaches position j fails; *)
+Theorem C20_write_error_tamper_detected :
+  forall (key : Type) (seal : key -> nonce -> bytes -> bytes)
+         (open_ : key -> nonce -> bytes -> option bytes) (pad : nat -> bytes),
+    aead_ok key seal open_ -> pad_ok pad ->
+    forall (a b : conn key) (c0 : N) (ws : list (bytes * option nat)) (a' : conn key)
+           (out : list bytes) (j : nat) (tail : bytes) (caps : list nat) (b' : conn key)
+           (w' : bytes) (rs : list rres),
+      paired key a b c0 ->
+      (c0 + N.of_nat (length (chunks_of_f ws)) <= max_u64)%N ->
+      write_many_f key seal pad a ws = (a', out) ->
+      j <= length out ->
+      (forall f, nth_error out j = Some f -> firstn sealed_size tail <> f) ->
+      read_until_err key open_ b (concat (firstn j out) ++ tail) caps = (b', w', rs) ->
+      forgery key seal (send_key a) c0 (frames_of_f pad ws) (concat (firstn j out) ++ tail) \/
+      ((exists rest, concat (firstn j (chunks_of_f ws)) = delivered rs ++ rest) /\
+       (forall e, In (RErr e) rs ->
+          delivered rs = concat (firstn j (chunks_of_f ws)) /\
+          ((tail = [] /\ e = REof) \/
+           (tail <> [] /\ length tail < sealed_size /\ e = RUnexpectedEof) \/
+           (sealed_size <= length tail /\ e = RDecrypt)))).
+Proof. exact fault_tamper_detected. Qed.
+Print Assumptions C20_write_error_tamper_detected.
+
+(** and when every sealed frame arrives unchanged, every sealed byte is delivered once, in order,
+    the only error being EOF after the last one: a reported write error alone desynchronises
+    nothing. *)
+Theorem C20_write_error_stream_exact :
+  forall (key : Type) (seal : key -> nonce -> bytes -> bytes)
+         (open_ : key -> nonce -> bytes -> option bytes) (pad : nat -> bytes),
+    aead_ok key seal open_ -> pad_ok pad ->
+    forall (a b : conn key) (c0 : N) (ws : list (bytes * option nat)) (a' : conn key)
+           (out : list bytes) (caps : list nat) (b' : conn key) (w' : bytes) (rs : list rres),
+      paired key a b c0 ->
+      (c0 + N.of_nat (length (chunks_of_f ws)) <= max_u64)%N ->
+      write_many_f key seal pad a ws = (a', out) ->
+      read_until_err key open_ b (concat out) caps = (b', w', rs) ->
+      (exists rest, concat (chunks_of_f ws) = delivered rs ++ rest) /\
+      (forall e, In (RErr e) rs -> e = REof /\ delivered rs = concat (chunks_of_f ws)).
+Proof. exact fault_stream_exact. Qed.
+Print Assumptions C20_write_error_stream_exact.
+
 (* ------------------------------------------------------------------ handshake (ideal signatures) *)
 
 (** The authentication step accepts the remote identity K only if the received signature is the
@@ -140,6 +255,40 @@ Theorem C20_identity :
   forall ch claimed s r, verify_auth ch claimed s = HOk r -> r = claimed /\ s = SigOf claimed ch.
 Proof. exact identity. Qed.
 Print Assumptions C20_identity.
+
+(* ------------------------------------------------------------------ transport upgrade *)
+
+(** MultiplexTransport.upgrade accepts a peer under ID x only if the far end's auth message
+    carried the (ideal) signature of key [claimed] over THIS session's challenge and x is the ID
+    of that key; x is then also the dialed ID on an outbound connection, the ID the NodeInfo
+    reports, and not our own ID.  (idof = PubKeyToID, any function.) *)
+Theorem C20_upgrade_identity :
+  forall (idof : N -> N) self dialed ch claimed s ni x,
+    upgrade idof self dialed ch claimed s ni = UpOk x ->
+    s = SigOf claimed ch /\ x = idof claimed /\
+    (forall d, dialed = Some d -> d = x) /\ x <> self /\
+    exists i, ni = Some i /\ ni_id i = x /\ ni_valid i = true /\ ni_compat i = true.
+Proof. exact upgrade_identity. Qed.
+Print Assumptions C20_upgrade_identity.
+
+(** In particular a far end that holds key m (and signs honestly) but whose NodeInfo announces an
+    ID other than the ID of m is refused, whatever ID was dialed ... *)
+Theorem C20_upgrade_impostor_refused :
+  forall (idof : N -> N) self dialed ch m i,
+    ni_id i <> idof m ->
+    exists r, upgrade idof self dialed ch m (SigOf m ch) (Some i) = UpRej r.
+Proof. exact upgrade_impostor_refused. Qed.
+Print Assumptions C20_upgrade_impostor_refused.
+
+(** ... while an honest far end is accepted under the ID of its key (the hypotheses of
+    C20_upgrade_identity are satisfiable). *)
+Theorem C20_upgrade_honest_accepted :
+  forall (idof : N -> N) self dialed ch k i,
+    ni_id i = idof k -> ni_valid i = true -> ni_compat i = true -> idof k <> self ->
+    (dialed = None \/ dialed = Some (idof k)) ->
+    upgrade idof self dialed ch k (SigOf k ch) (Some i) = UpOk (idof k).
+Proof. exact upgrade_honest. Qed.
+Print Assumptions C20_upgrade_honest_accepted.
 
 (* ------------------------------------------------------------------ packet layer *)
 
@@ -186,6 +335,17 @@ Theorem C20_oversize :
     r <> None /\ exists k, events_of (ch_id d) evs = firstn k pre.
 Proof. exact oversize. Qed.
 Print Assumptions C20_oversize.
+
+(** A length prefix above the receiver's limit — in particular every value that is negative as a
+    Go int — after a packet stream: everything complete before it is delivered, then the
+    receiver stops with the size error (nothing is allocated or read for it). *)
+Theorem C20_declared_length_refused :
+  forall maxsize cs ps len evs,
+    recv_stream maxsize cs ps = (evs, None) ->
+    (N.of_nat maxsize < len \/ 9223372036854775807 < len)%N ->
+    recv_stream_then_len maxsize cs ps len = (evs, Some MTooBig).
+Proof. exact declared_length_refused. Qed.
+Print Assumptions C20_declared_length_refused.
 
 (** Sender side: with non-empty messages, running sendPacketMsg until it reports "exhausted"
     emits, for every channel, exactly the packetisation of its queued messages in order —
